@@ -138,6 +138,13 @@ type EditPair struct {
 	Before, After *Bundle
 	Pkg           string
 	Edits         []EditRec
+	// KnownNoEmbed: the pair of a known finding - the old descriptors do NOT embed into the new ones
+	KnownNoEmbed bool
+}
+
+func emptyEnum(opts ...string) *Bundle {
+	return &Bundle{Files: []*File{file([]string{"foo", "v1"}, "a",
+		&Element{Kind: "enum", N: &Nested{Kind: "enum", Name: "Status", Enum: &Enum{Name: "Status", Opts: opts}}})}}
 }
 
 // EditCorpus: hand-written before/after pairs for C13.
@@ -154,8 +161,12 @@ func EditCorpus() []EditPair {
 	fooP := prop("foo", obj())
 	return []EditPair{
 		{mk(), plain, "foo.v1", []EditRec{{"field", "foo/v1/a.j5s:Foo", "age scalar", "EAppendField 0 0 " + age.Coq()},
-			{"option", "foo/v1/a.j5s:Status", "INACTIVE", "EAppendOption 0 1 " + S("INACTIVE")}}},
+			{"option", "foo/v1/a.j5s:Status", "INACTIVE", "EAppendOption 0 1 " + S("INACTIVE")}}, false},
 		// defect: the appended inline type Foo.Foo captures the relative name Foo.X of the existing field
-		{mk(), mk(fooP), "foo.v1", []EditRec{{"field", "foo/v1/a.j5s:Foo", "foo objinline", "EAppendIn 0 0 AtDecl [] (AField " + fooP.Coq() + ")"}}},
+		{mk(), mk(fooP), "foo.v1", []EditRec{{"field", "foo/v1/a.j5s:Foo", "foo objinline", "EAppendIn 0 0 AtDecl [] (AField " + fooP.Coq() + ")"}}, false},
+		// known finding: an enum without options; the appended option is its first, ends in UNSPECIFIED
+		// and therefore replaces the implicit zero value STATUS_UNSPECIFIED by STATUS_OLD_UNSPECIFIED
+		{emptyEnum(), emptyEnum("OLD_UNSPECIFIED"), "foo.v1",
+			[]EditRec{{"option", "foo/v1/a.j5s:Status", "OLD_UNSPECIFIED", "EAppendOption 0 0 " + S("OLD_UNSPECIFIED")}}, true},
 	}
 }
